@@ -124,7 +124,7 @@ $(B)/libpixman.a: $(PIXMAN_OBJS)
 	@rm -f $@
 	ar rcs $@ $^
 
-LINK = $(CC) -no-pie $(LDSAN) -o $@ $(filter %.o,$^) $(B)/libpixman.a $(WRAP) -lm -lpthread
+LINK = $(CC) -no-pie -rdynamic $(LDSAN) -o $@ $(filter %.o,$^) $(B)/libpixman.a $(WRAP) -lm -lpthread -ldl
 
 $(B)/region: $(B)/worlds/region.o $(CORE_OBJS) $(B)/libpixman.a
 	$(LINK)
